@@ -131,6 +131,13 @@ func runC02(env *core.Env) {
 	delete(nolock, ".ergo/lock")
 	run("claim||claim/lock-file-missing", nolock, 2, claimReq("a1"), claimReq("a2"))
 	run("new-task||set/lock-file-missing", nolock, 2, core.R("", "--json", "new", "task").In(`{"title":"N0"}`), core.R("", "--json", "set", f.T2).In(`{"state":"done"}`))
+	// the legacy file name: commands that rewrite the log against commands that append to it
+	leg := legacyNamed(f.SA)
+	for _, rw := range []int{12, 14} { // plan, compact
+		for _, ap := range []int{0, 3, 6, 8} { // new task, set{state}, claim, sequence
+			run(alpha[rw].Name+"||"+alpha[ap].Name+"/S_A-legacy-file", leg, 2, alpha[rw].Mk(f, 0), alpha[ap].Mk(f, 1))
+		}
+	}
 	for _, p := range pairs {
 		a, b := alpha[p.a], alpha[p.b]
 		bound := 1
